@@ -16,7 +16,7 @@ CONSTANTS
   MaxAged = 0
   Ops = {"flushall", "shutdown"}
   CloseAfterWrites = FALSE
-  CloseDrains = FALSE
+  CloseDrains = TRUE
   Coarse = FALSE
   Emit = FALSE
 VIEW view
